@@ -18,6 +18,7 @@ import (
 	"fmt"
 	"os"
 	"sort"
+	"time"
 
 	"github.com/ethereum/go-ethereum/common"
 	"github.com/ethereum/go-ethereum/core/rawdb"
@@ -675,6 +676,11 @@ func decodeCase(c Sx) (scheme int, root common.Hash, pre [][2][]byte, src [][]by
 }
 
 func run(c Sx) Result {
+	if l, ok := c.(SL); ok && len(l) == 6 {
+		if t, ok := l[0].(SI); ok && t.V.Int64() == 9 {
+			return runBig(l)
+		}
+	}
 	scheme, root, pre, src, ops := decodeCase(c)
 	tgt := enumerate(root, src)
 	e := newEngine(scheme, root, pre, tgt)
@@ -1259,6 +1265,190 @@ func gen(r *Rng, tier string, emit func(Sx)) {
 		}
 		emit(genCase(r.Fork(), mode))
 	}
+	// large-scale stream: wide tries that put more than maxFetchesPerDepth (16384)
+	// requests of one depth in flight
+	nb := 2
+	if tier == "thorough" {
+		nb = 8
+	}
+	for i := 0; i < nb; i++ {
+		emit(L(I(9), I(int64(r.Intn(2))), U(r.U64()>>1), I(int64(30000+r.Intn(6000))), I(int64(i%2)), I(int64((i/2+i)%2))))
+	}
+}
+
+// ---------------------------------------------------------------- large-scale cases
+//
+// case = (9 scheme seed naccounts kind mode): a wide account trie of naccounts random
+// hashed keys (kind 1: a tenth of the accounts carry a small storage trie, a tenth a
+// code), synced into an empty destination.  mode 0: Missing(0) every round, everything
+// delivered, commit per round; mode 1: Missing(k) with mixed k, several calls before
+// anything is delivered, random partial deliveries in random order.  More than
+// maxFetchesPerDepth requests of one depth are in flight, so the throttle of
+// Sync.Missing engages.  observation = (9 completed missing-target-entries); the model
+// side answers the property's value (9 1 0) without simulating the 50k requests.
+var shrinkBigSeen bool
+
+func runBig(l SL) Result {
+	if len(os.Args) > 1 && os.Args[1] == "shrink" {
+		// the shrinker cannot make such a case smaller and keep it failing: judge the
+		// original only, skip the candidates
+		if shrinkBigSeen {
+			return Result{Obs: L(I(9), I(1), I(0))}
+		}
+		shrinkBigSeen = true
+	}
+	scheme, seed, n, kind, mode := AsInt(l[1]), AsU64(l[2]), AsInt(l[3]), AsInt(l[4]), AsInt(l[5])
+	if (scheme != 0 && scheme != 1) || n < 0 || n > 200000 {
+		panic("hxlib: case shape")
+	}
+	r := NewRng(seed)
+	specs := make([]acctSpec, 0, n)
+	seen := map[common.Hash]bool{}
+	for len(specs) < n {
+		var k common.Hash
+		copy(k[:], r.Bytes(32))
+		if seen[k] {
+			continue
+		}
+		seen[k] = true
+		a := acctSpec{key: k, nonce: uint64(r.Intn(4)), balance: r.U64() >> 8}
+		if kind == 1 {
+			switch r.Intn(10) {
+			case 0:
+				a.slots = randSlots(r, r.Range(1, 3))
+			case 1:
+				a.code = r.Bytes(r.Range(20, 60))
+			}
+		}
+		specs = append(specs, a)
+	}
+	bs := &blobset{seen: map[string]int{}}
+	root := buildState(specs, bs)
+	tgt := enumerate(root, bs.list)
+	blobs := make(map[common.Hash][]byte, len(bs.list))
+	for _, b := range bs.list {
+		blobs[crypto.Keccak256Hash(b)] = b
+	}
+	e := newEngine(scheme, root, nil, tgt)
+	res := Result{Tags: []string{"big", e.scheme, fmt.Sprintf("bigkind%d", kind), fmt.Sprintf("bigmode%d", mode)}}
+	type nreq struct {
+		path string
+		hash common.Hash
+	}
+	var (
+		inN      []nreq
+		inC      []common.Hash
+		rounds   int
+		stall    int
+		throttle bool
+		oracle   string
+		maxIn    int
+	)
+	deliver := func(all bool) int {
+		nn, nc := len(inN), len(inC)
+		if !all {
+			for i := len(inN) - 1; i > 0; i-- {
+				j := r.Intn(i + 1)
+				inN[i], inN[j] = inN[j], inN[i]
+			}
+			nn = len(inN) * r.Range(30, 100) / 100
+			nc = len(inC) * r.Range(30, 100) / 100
+		}
+		for i := 0; i < nn; {
+			j := i + r.Range(1, 3000)
+			if j > nn {
+				j = nn
+			}
+			ps := make([]string, 0, j-i)
+			hs := make([]common.Hash, 0, j-i)
+			bl := make([][]byte, 0, j-i)
+			for _, q := range inN[i:j] {
+				ps, hs, bl = append(ps, q.path), append(hs, q.hash), append(bl, blobs[q.hash])
+			}
+			if ok, err := e.healer.DeliverTrieNodes(ps, hs, bl); !ok || err != nil {
+				oracle = fmt.Sprintf("honest trienode response rejected: %v", err)
+			}
+			i = j
+		}
+		inN = inN[nn:]
+		if nc > 0 {
+			bl := make([][]byte, 0, nc)
+			for _, h := range inC[:nc] {
+				bl = append(bl, blobs[h])
+			}
+			if ok, err := e.healer.DeliverByteCodes(inC[:nc], bl); !ok || err != nil {
+				oracle = fmt.Sprintf("honest bytecode response rejected: %v", err)
+			}
+			inC = inC[nc:]
+		}
+		return nn + nc
+	}
+	for e.sched.Pending() > 0 && oracle == "" {
+		rounds++
+		k := 0
+		if mode == 1 {
+			k = []int{0, 0, 1, 3000, 20000, 50000}[r.Intn(6)]
+		}
+		paths, hashes, codes := e.sched.Missing(k)
+		if _, size := trie.VerifC12Peek(e.sched); size > 0 && (k == 0 || len(paths)+len(codes) < k) {
+			throttle = true // Missing stopped although the queue is not empty and the batch is not full
+		}
+		for i, p := range paths {
+			owner, inner := splitPath([]byte(p))
+			if nd, ok := tgt.index[nkey(owner, inner)]; !ok || nd.hash != hashes[i] {
+				oracle = fmt.Sprintf("requested a node outside the target: path %x hash %x", p, hashes[i])
+			}
+			inN = append(inN, nreq{p, hashes[i]})
+		}
+		inC = append(inC, codes...)
+		if len(inN)+len(inC) > maxIn {
+			maxIn = len(inN) + len(inC)
+		}
+		got := len(paths) + len(codes)
+		done := 0
+		switch {
+		case mode == 0 || got == 0:
+			done = deliver(true)
+		case !throttle || (r.Chance(1, 2) && len(inN) < 60000):
+			// let requests pile up (always until the throttle has engaged once)
+		default:
+			done = deliver(false)
+		}
+		if mode == 0 || r.Chance(1, 4) {
+			e.healer.ForceCommit()
+		}
+		if got+done == 0 {
+			stall++
+		} else {
+			stall = 0
+		}
+		if stall >= 3 || rounds > 20000 {
+			oracle = fmt.Sprintf("sync does not terminate: %d requests pending, %d in flight, Missing returns nothing (round %d, at most %d in flight)",
+				e.sched.Pending(), len(inN)+len(inC), rounds, maxIn)
+		}
+	}
+	e.healer.ForceCommit()
+	completed := e.sched.Pending() == 0 && oracle == ""
+	missing := 0
+	fin := dumpMap(e.db)
+	for k, v := range tgt.entries(e.scheme) {
+		if fv, ok := fin[k]; !ok || !bytes.Equal(fv, v) {
+			missing++
+		}
+	}
+	if oracle == "" && missing > 0 {
+		oracle = fmt.Sprintf("sync finished but %d target entries are missing from the store", missing)
+	}
+	if oracle == "" && !tgt.complete {
+		oracle = "harness: target could not be enumerated"
+	}
+	if throttle {
+		res.Tags = append(res.Tags, "throttle")
+	}
+	res.Obs = L(I(9), Bool(completed), I(int64(missing)))
+	res.Oracle = oracle
+	res.NonTrivial = throttle
+	return res
 }
 
 func main() {
@@ -1272,7 +1462,8 @@ func main() {
 			"into a destination that is empty / a closed partial copy / a stale full copy / an arbitrary subset / has garbage, hash and path scheme; " +
 			"scripts of Missing(k) rounds, chunked requests answered in random order, partially, twice, corrupted, reordered, foreign, empty, with commits; " +
 			"non-trivial = at least one node requested and one delivery processed",
-		Gen: gen,
-		Run: run,
+		Gen:         gen,
+		Run:         run,
+		CaseTimeout: 1500 * time.Second,
 	})
 }
